@@ -17,7 +17,11 @@ TIME_LIMIT = 20
 # crashes of the compiler that are genuine, recorded defects of /repo (known_findings.json), by exact stderr signature;
 # evalcore.KNOWN_CRASHES holds the ones shared with the evaluation properties
 OWN_KNOWN = {"mutual-aggregate-cyclic-dependency-fatal":
-             lambda err: "\ncyclic dependency\n" in ("\n" + err) and "fatal error; see std err" in err}
+             lambda err: "\ncyclic dependency\n" in ("\n" + err) and "fatal error; see std err" in err,
+             "underscore-functor-argument-assert":
+             lambda err: "variable not grounded: +underscore_" in err and '"variable not grounded" && false' in err,
+             "preprocessor-failure-uncaught-exception":
+             lambda err: "Pre-processor command failed" in err and "what():  Failed to read input" in err}
 
 def known_crash(res, pid, err):
     """True when stderr carries the signature of a recorded compiler crash (reported as KNOWN-FINDING when listed for pid)."""
@@ -36,7 +40,7 @@ def known_crash(res, pid, err):
     return False
 
 class Run:
-    __slots__ = ("label", "dir", "rc", "stdout", "stderr", "events", "outs", "secs", "parsed_errors", "raw_events", "retried")
+    __slots__ = ("label", "dir", "rc", "stdout", "stderr", "events", "outs", "secs", "parsed_errors", "raw_events", "retried", "infra")
 
 def read_trace(path):
     evs = []
@@ -90,7 +94,7 @@ def run_souffle(label, d, text=None, dl=None, args=(), facts=None, timeout=TIME_
     tr = os.path.join(d, "trace.ndjson")
     cmd = ["/bin/sh", "-c", 'ulimit -t %d; exec "$@"' % timeout, "sh", souffle or build.SOUFFLE, "-D", os.path.join(d, "out")] \
         + (["-F", facts] if facts else []) + list(args) + [dl]
-    retried = False
+    retried = False; exec_tries = 0
     wall = timeout
     while True:
         if os.path.exists(tr):
@@ -99,12 +103,16 @@ def run_souffle(label, d, text=None, dl=None, args=(), facts=None, timeout=TIME_
             os.remove(os.path.join(d, "out", f))
         t0 = time.time()
         rc, out, err = run(cmd, timeout=wall, env={"SOUFFLE_VERIF_TRACE": tr}, cwd=d)
+        if rc in (126, 127) and err.startswith("sh: ") and exec_tries < 60:
+            exec_tries += 1; time.sleep(3)          # the shared binary is being relinked by a concurrent check
+            continue
         if rc == -999 and not retried and os.getloadavg()[0] > NCPU / 2:
             retried = True; wall = 12 * timeout
             continue
         break
     r = Run(); r.label = label; r.dir = d; r.rc = rc; r.stdout = out; r.stderr = err; r.secs = time.time() - t0
     r.retried = retried
+    r.infra = rc in (126, 127) and err.startswith("sh: ")     # souffle could not be started at all
     r.outs = sorted(os.listdir(os.path.join(d, "out")))
     raw = read_trace(tr)
     r.raw_events = len(raw)
